@@ -420,7 +420,12 @@ func (s *LinearState) FindCachedRules(ctx *Context, event Map) (map[string]*Rule
 		} else {
 			rule, err := RuleFromMap(ctx, r)
 			if err != nil {
-				return nil, err
+				// Not a rule after all (say a fact with an
+				// ill-typed "rule" property): it cannot fire,
+				// and it should not keep the other rules
+				// from firing.
+				Log(ERROR, ctx, "LinearState.FindCachedRules", "state", s.Name, "id", id, "error", err)
+				continue
 			}
 			// The id is set before the rule is shared through the cache.
 			rule.Id = id
